@@ -208,6 +208,12 @@ def run(chk, P):
     chk.floor('R17.3', 2)
     chk.floor('R17.7', 1)
     chk.floor('R17.8', 3)
+    chk.rule('R17.9', 'the channel count that sizes a frame is the decoded link\'s on a streaming handle too: vf->vi is indexed by '
+             'vf->current_link only where the handle is known seekable (same obligations as R09.11); a streaming handle has a '
+             'single info while current_link counts the links played')
+    from rules import c09
+    c09.r09_11(common.Proxy(chk, 'R17.9'), P, rule='R17.9')
+    chk.floor('R17.9', 5)
     from rules import c09
 
     class Proxy:
